@@ -31,6 +31,8 @@ RATE_SETS = {
     "negative": {13: "-3.0e-9"},
     "compound": {12: "(zeta+1.0e-17)/Av", 15: "2.5*nH"},
     "index0": {0: "7.0"},
+    # written by hand into naunet_config.toml as TOML numbers (0.0 = switch the reaction off)
+    "toml-numbers": {11: "0.0", 15: "2.5e-10", 13: "0"},
 }
 ODE_SETS = {
     "dep1": {"H": {"factors": ["2.0"], "reactants": [["C"]]}},
@@ -51,6 +53,18 @@ ODE_SETS = {
 from ..xcheck import XCheck
 
 XC = XCheck()
+
+def _toml_numbers(text):
+    """the rate-modifier values of the configuration file rewritten as TOML numbers"""
+    import tomlkit
+
+    doc = tomlkit.loads(text)
+    tab = doc["chemistry"]["rate_modifier"]
+    for k in list(tab):
+        v = str(tab[k]).strip()
+        tab[k] = int(v) if v.lstrip("-").isdigit() else float(v)
+    return tomlkit.dumps(doc)
+
 
 def cli_args(rate_mod, ode_mod, method="dense", solver="cvode"):
     a = ["--name", "t", "--description", "d", "--loading", "", "--elements", "H,C", "--pseudo-elements", "Photon,CR", "--element-replacement", "", "--surface-prefix", "#", "--bulk-prefix", "@",
@@ -156,7 +170,7 @@ def _analyse(kind, name, tier, res):
         res["solver_s"] += time.time() - t0
     # configuration-file path: init -> naunet_config.toml -> render
     tdir = "cvode_dense"
-    cli = proj.render_cli(f"cli-{name}", files, cli_args(rate_mod, ode_mod), tdir)
+    cli = proj.render_cli(f"cli-{name}", files, cli_args(rate_mod, ode_mod), tdir, edit_config=_toml_numbers if name == "toml-numbers" else None)
     tag = f"{kind}:{name}/cli"
     if not cli.ok:
         res["viol"].append({"key": f"{tag}:refused", "what": f"modifier set accepted by the API is refused on the init/render path: {cli.meta.get('error', '')[-300:]}", "replay": {"args": cli_args(rate_mod, ode_mod)}})
